@@ -86,6 +86,7 @@ type Op struct {
 	Agg    string        `json:"agg,omitempty"`
 	Cache  string        `json:"cache,omitempty"`
 	Frac   float64       `json:"frac,omitempty"`
+	Thr    int64         `json:"thr,omitempty"` // put: retention threshold (unix) in force, 0 = none
 }
 
 type GetDump struct {
@@ -118,6 +119,11 @@ func (st *Store) Apply(op Op) (res OpResult) {
 			return OpResult{Err: err.Error()}
 		}
 		t := treeu.Build(op.Stacks)
+		if op.Thr != 0 {
+			st.Cfg.Retention = time.Since(time.Unix(op.Thr, 0))
+		} else {
+			st.Cfg.Retention = 0
+		}
 		err = st.S.Put(&storage.PutInput{
 			StartTime: time.Unix(op.From, 0), EndTime: time.Unix(op.Until, 0), Key: key, Val: t,
 			SpyName: op.Spy, SampleRate: op.Rate, Units: op.Units, AggregationType: op.Agg,
